@@ -13,7 +13,9 @@
  * script lines:
  *   C mode op sfmt sw sh sneg srep sfilt m0..m8 mfmt mw mh dfmt dw dh dneg sx sy mx my dx dy w h seed
  *   T mode dfmt dw dh ntraps (top bottom l.p1.x l.p1.y l.p2.x l.p2.y r.p1.x r.p1.y r.p2.x r.p2.y)* xoff yoff seed kind
- *   mode: 0 accessor, 1 guard-high, 2 guard-low
+ *   mode: 0 accessor, 1 guard-high, 2 guard-low; C requests: + 4 rows contiguous (no padding words) in every image,
+ *   + 8 the transform, filter and repeat of the request are set on the MASK instead of the source (the source is
+ *   then an untransformed, non-repeating image): requests whose big / transformed image is the mask
  */
 #include <config.h>
 #include "pixman-private.h"
@@ -148,8 +150,18 @@ make_storage (vimg_t *v, long size, int high, vrng_t *rng)
     /* pixman requires 4-byte aligned bits; sizes are multiples of 4 */
     v->store = high ? v->map + GUARD + body - size : v->map + GUARD;
     v->size = size;
-    for (i = 0; i < size; i++)
-	v->store[i] = (uint8_t)vrng_next (rng);
+    if (size < 65536)
+	for (i = 0; i < size; i++)
+	    v->store[i] = (uint8_t)vrng_next (rng);
+    else
+    {
+	/* very wide / very high images: whole words of the generator (sizes are multiples of 4) */
+	for (i = 0; i + 4 <= size; i += 4)
+	{
+	    uint32_t r = (uint32_t)(vrng_next (rng) >> 16);
+	    memcpy (v->store + i, &r, 4);
+	}
+    }
     v->niv = 0;
     v->overflow = 0;
 }
@@ -229,11 +241,11 @@ main (int argc, char **argv)
 	if (fscanf (in, "%d", &n) != 1 || n > 128) return 3;
 	for (i = 0; i < n; i++)
 	    if (fscanf (in, "%lld", &f[i]) != 1) return 3;
-	alarm (30);
+	alarm (120);      /* a hang is a Crash event; generous, so that a loaded machine does not turn a slow request (a 64K x 64K temporary trapezoid mask) into one */
 	if (kind[0] == 'C')
 	{
 	    /* mode + 4: rows contiguous (no padding words) in every image of this request */
-	    int mode_raw = (int)f[k++], mode = mode_raw & 3, op = (int)f[k++];
+	    int mode_raw = (int)f[k++], mode = mode_raw & 3, tm = (mode_raw & 8) != 0, op = (int)f[k++];
 	    pixman_format_code_t sfmt = (pixman_format_code_t)f[k++];
 	    int sw = (int)f[k++], sh = (int)f[k++], sneg = (int)f[k++], srep = (int)f[k++], sfilt = (int)f[k++];
 	    pixman_transform_t tr;
@@ -256,28 +268,31 @@ main (int argc, char **argv)
 	    dst = make_image (nimgs++, dfmt, dw, dh, dneg, mode, &rng);
 	    force_min_stride = 0;
 	    fprintf (vt_out, "{\"e\":\"Req\",\"n\":%d,\"kind\":\"C\",\"mode\":%d,\"op\":%d,\"sw\":%d,\"sh\":%d,\"srep\":%d,\"sfilt\":%d,"
-		     "\"m\":[%d,%d,%d,%d,%d,%d,%d,%d,%d],\"sx\":%d,\"sy\":%d,\"mx\":%d,\"my\":%d,\"dx\":%d,\"dy\":%d,\"w\":%d,\"h\":%d,\"dw\":%d,\"dh\":%d,\"ok\":%s}\n",
+		     "\"m\":[%d,%d,%d,%d,%d,%d,%d,%d,%d],\"sx\":%d,\"sy\":%d,\"mx\":%d,\"my\":%d,\"dx\":%d,\"dy\":%d,\"w\":%d,\"h\":%d,\"dw\":%d,\"dh\":%d,\"mw\":%d,\"mh\":%d,\"tm\":%d,\"ok\":%s}\n",
 		     reqno, mode, op, sw, sh, srep, sfilt,
 		     tr.matrix[0][0], tr.matrix[0][1], tr.matrix[0][2], tr.matrix[1][0], tr.matrix[1][1], tr.matrix[1][2],
 		     tr.matrix[2][0], tr.matrix[2][1], tr.matrix[2][2], sx, sy, mx, my, dx, dy, w, h, dw, dh,
+		     mfmt ? mw : 0, mfmt ? mh : 0, (tm && mfmt) ? 1 : 0,
 		     (src && dst && (!mfmt || mask)) ? "true" : "false");
 	    fflush (vt_out);
 	    if (src && dst && (!mfmt || mask))
 	    {
-		pixman_image_set_repeat (src, (pixman_repeat_t)srep);
+		/* the image that carries the request's geometry attributes */
+		pixman_image_t *geo = (tm && mask) ? mask : src;
+		pixman_image_set_repeat (geo, (pixman_repeat_t)srep);
 		if (sfilt == PIXMAN_FILTER_CONVOLUTION)
 		{
 		    conv[0] = pixman_int_to_fixed (3); conv[1] = pixman_int_to_fixed (3);
 		    for (i = 0; i < 9; i++) conv[2 + i] = 65536 / 9;
-		    pixman_image_set_filter (src, PIXMAN_FILTER_CONVOLUTION, conv, 11);
+		    pixman_image_set_filter (geo, PIXMAN_FILTER_CONVOLUTION, conv, 11);
 		}
 		else
-		    pixman_image_set_filter (src, (pixman_filter_t)sfilt, NULL, 0);
-		pixman_image_set_transform (src, &tr);
+		    pixman_image_set_filter (geo, (pixman_filter_t)sfilt, NULL, 0);
+		pixman_image_set_transform (geo, &tr);
 		{
 		    /* a 1x1 mask always repeats (the library then treats it as a solid mask) */
 		    int mrep = vrng_below (&rng, 3) == 0;
-		    if (mask && (mrep || (mw == 1 && mh == 1)))
+		    if (mask && geo != mask && (mrep || (mw == 1 && mh == 1)))
 			pixman_image_set_repeat (mask, PIXMAN_REPEAT_NORMAL);
 		}
 		pixman_image_composite32 ((pixman_op_t)op, src, mask, dst, sx, sy, mx, my, dx, dy, w, h);
